@@ -62,6 +62,7 @@ def units(tier, seed):
         for k in ([1, 2] if tier == "quick" else [1, 2, 3]):
             out.append(dict(kind="groups", platform=plat, k=k))
         out.append(dict(kind="items", platform=plat))
+        out.append(dict(kind="items_ordered", platform=plat))
     return out
 
 
@@ -83,6 +84,8 @@ def run_unit(unit, ctx):
                 _pair(unit["platform"], a, b, ta, tb, ctx)
     elif unit["kind"] == "groups":
         _groups(unit, ctx)
+    elif unit["kind"] == "items_ordered":
+        _items_ordered(unit, ctx)
     else:
         _items(unit, ctx)
 
@@ -192,6 +195,44 @@ def _groups(unit, ctx):
         for x in xs:
             _group_case(unit["platform"], x, list(members), ctx)
     ctx.sample("group", dict(platform=unit["platform"], k=unit["k"]))
+
+
+def _items_ordered(unit, ctx):
+    """Groups as ORDERED member lists (every ordered selection of 1..3 members of a 6-address pool,
+    members inside and outside the candidate tops in every position) against plain tops."""
+    from itertools import permutations
+
+    from cisco_acl import Address
+
+    plat = unit["platform"]
+    al = {a.label: a for a in G.addr_alphabet(ctx.seed)}
+    pool = [al[k] for k in ("host1", "host2", "net30", "net25hi", "ext24", "host_ext")]
+    tops = [al[k] for k in ("net24", "net30", "net8", "ext24", "any", "net25hi", "nc_low_run_plus_bit")]
+    kw = "object-group" if plat == "ios" else "addrgroup"
+    for n in (1, 2, 3):
+        for members in permutations(pool, n):
+            bottom = Address(f"{kw} G", platform=plat,
+                             items=[m.spellings(plat)[0][0] for m in members])
+            cubes = tuple(c for m in members for c in m.cubes)
+            for top in tops:
+                ctx.ev()
+                case = dict(kind="items", platform=plat, a=[m.label for m in members], b=top.label)
+                try:
+                    got = bottom.subnet_of(Address(top.spellings(plat)[0][0], platform=plat))
+                except Exception as ex:  # noqa
+                    ctx.viol("Address.subnet_of(group items):exception", case, repr(ex), "bool")
+                    continue
+                exact = S.addr_subset(cubes, top.cubes)
+                if got and not exact:
+                    ctx.viol("Address.subnet_of(group items):false_positive", case, got, exact)
+                # member-wise relation is also complete against a single-cube top
+                if exact and not got:
+                    ctx.viol("Address.subnet_of(group items):false_negative_single_top", case, got,
+                             exact)
+                if got:
+                    ctx.out("group_items_true")
+                    ctx.nt((plat, tuple(m.label for m in members), top.label))
+    ctx.sample("items_ordered", dict(platform=plat))
 
 
 def _items(unit, ctx):
